@@ -1316,6 +1316,23 @@ func c08Precond(e *Env) {
 						okG = true
 					}
 				}
+				// an earlier `if !G { return … }` in an enclosing block establishes G as well
+				for cur := ast.Node(call); cur != nil && !okG; cur = par[cur] {
+					blk, isBlk := par[cur].(*ast.BlockStmt)
+					if !isBlk {
+						continue
+					}
+					for _, st := range blk.List {
+						if st.Pos() >= cur.Pos() {
+							break
+						}
+						if is, ok := st.(*ast.IfStmt); ok && is.Else == nil && terminates(is.Body) {
+							if u, ok := unparen(is.Cond).(*ast.UnaryExpr); ok && u.Op == token.NOT && implies(info, u.X) {
+								okG = true
+							}
+						}
+					}
+				}
 				r.Check(okG, rule, fmt.Sprintf("%s:%s#%d:guarded", w.FuncName(fi.Obj), need.Obj.Name(), k), w.Pos(call.Pos()), need.Obj.Name()+" is called only for entries with an open file", "the call is not under a condition implying `len(ff.dirIndex) == 0` / `ff.f != nil`: a generated directory page (no file) reaches a reader that panics without one")
 			}
 		}
